@@ -48,76 +48,8 @@ impl Default for FinalizationEvent {
     { unimplemented!() }
 }
 
-// =============================================================== C08 specification (from the statement)
-pub open spec fn decided(st: Option<FinalizationStatus>) -> bool {
-    st matches Some(s) && (s is Finalized || s is ImplicitlyFinalized || s is ImplicitlySkipped)
-}
-// the block a slot is finalized with, directly or through a finalized descendant
-pub open spec fn fin_hash(st: Option<FinalizationStatus>) -> Option<BlockHash> {
-    match st {
-        Some(FinalizationStatus::Finalized(h)) => Some(h),
-        Some(FinalizationStatus::ImplicitlyFinalized(h)) => Some(h),
-        _ => None,
-    }
-}
-// "Discarding old state never changes these answers" / no downgrade: a decided slot keeps its
-// decision (the only change allowed is the upgrade ImplicitlyFinalized(h) -> Finalized(h)).
-pub open spec fn keeps_decision(old_st: Option<FinalizationStatus>, new_st: Option<FinalizationStatus>) -> bool {
-    decided(old_st) ==> (decided(new_st) && fin_hash(new_st) == fin_hash(old_st)
-        && (old_st matches Some(FinalizationStatus::Finalized(_)) ==> new_st == old_st))
-}
+/*@ include units/finality/spec.rs @*/
 
-impl FinalityTracker {
-    pub open spec fn st(&self, s: Slot) -> Option<FinalizationStatus> {
-        if self.status@.contains_key(s) { Some(self.status@[s]) } else { None }
-    }
-    // representation invariant (holds between operations)
-    pub open spec fn wf_base(&self) -> bool {
-        // nothing older than the watermark is retained
-        &&& forall|s: Slot| #[trigger] self.status@.contains_key(s) ==> s.0 >= self.first_unpruned_slot.0
-        &&& forall|b: BlockId| #[trigger] self.parents@.contains_key(b) ==> b.0.0 >= self.first_unpruned_slot.0
-        // parent links point to earlier slots
-        &&& forall|b: BlockId| #[trigger] self.parents@.contains_key(b) ==> self.parents@[b].0.0 < b.0.0
-        &&& self.first_unpruned_slot.0 <= self.highest_finalized_slot.0 < u64::MAX
-        // decided slots lie at or below the highest finalized slot
-        &&& forall|s: Slot| decided(#[trigger] self.st(s)) ==> s.0 <= self.highest_finalized_slot.0
-    }
-    // the same, in the window where slot `exc` has just been marked Finalized and the highest
-    // finalized slot is about to be raised
-    pub open spec fn wf_base_exc(&self, exc: Slot) -> bool {
-        &&& forall|s: Slot| #[trigger] self.status@.contains_key(s) ==> s.0 >= self.first_unpruned_slot.0
-        &&& forall|b: BlockId| #[trigger] self.parents@.contains_key(b) ==> b.0.0 >= self.first_unpruned_slot.0
-        &&& forall|b: BlockId| #[trigger] self.parents@.contains_key(b) ==> self.parents@[b].0.0 < b.0.0
-        &&& self.first_unpruned_slot.0 <= self.highest_finalized_slot.0 < u64::MAX
-        &&& forall|s: Slot| decided(#[trigger] self.st(s)) && s != exc ==> s.0 <= self.highest_finalized_slot.0
-    }
-    pub open spec fn wf(&self) -> bool {
-        &&& self.wf_base()
-        // the watermark is maximal: the slot after it is not decided
-        &&& !decided(self.st(Slot((self.first_unpruned_slot.0 + 1) as u64)))
-    }
-    // the whole observable state, unchanged
-    pub open spec fn same_as(&self, o: &FinalityTracker) -> bool {
-        self.status@ == o.status@ && self.parents@ == o.parents@
-            && self.highest_finalized_slot == o.highest_finalized_slot && self.first_unpruned_slot == o.first_unpruned_slot
-    }
-}
-
-pub open spec fn event_is_default(e: FinalizationEvent) -> bool {
-    e.finalized is None && e.implicitly_finalized@.len() == 0 && e.implicitly_skipped@.len() == 0
-}
-
-// a slot decided implicitly is listed in the finalization event (what the parent-ready tracker acts upon)
-pub open spec fn reported_in(ev: FinalizationEvent, s: Slot, st: Option<FinalizationStatus>) -> bool {
-    match st {
-        Some(FinalizationStatus::ImplicitlySkipped) => ev.implicitly_skipped@.contains(s),
-        Some(FinalizationStatus::ImplicitlyFinalized(h)) => ev.implicitly_finalized@.contains((s, h)),
-        _ => false,
-    }
-}
-pub open spec fn reported_any(ev: FinalizationEvent, s: Slot) -> bool {
-    ev.implicitly_skipped@.contains(s) || exists|h: BlockHash| #[trigger] ev.implicitly_finalized@.contains((s, h))
-}
 pub proof fn lemma_prefix_contains<T>(a: Seq<T>, b: Seq<T>, x: T)
     requires a.is_prefix_of(b), a.contains(x),
     ensures b.contains(x),
@@ -572,6 +504,9 @@ ensures
         r.finalized is Some <==> (block.0.0 >= old(self).first_unpruned_slot.0 && fin_hash(old(self).st(block.0)) is None),
         r.finalized is Some ==> r.finalized == Some(block),
         block.0.0 >= final(self).first_unpruned_slot.0 ==> final(self).st(block.0) == Some(FinalizationStatus::Finalized(block.1)),
+        // [C18.marks_stand_for_certificates C08.marks_stand_for_certificates]
+        forall|s: Slot| mark_of(#[trigger] final(self).st(s)) ==> final(self).st(s) == old(self).st(s),
+        hi_step(old(self), final(self), r),
         // [C08.highest_finalized_never_decreases]
         final(self).highest_finalized_slot.0 >= old(self).highest_finalized_slot.0,
         r.finalized is Some ==> final(self).highest_finalized_slot.0 >= block.0.0,
@@ -593,6 +528,10 @@ before `self.handle_finalized_block(block, &mut event);`
         let ghost g = *self;
 after `self.handle_finalized_block(block, &mut event);`
         proof {
+            assert forall|s: Slot| mark_of(#[trigger] self.st(s)) implies self.st(s) == pre.st(s) by {
+                let _ = g.st(s);
+                assert(self.status@.contains_key(s));
+            }
             assert forall|s: Slot| s.0 >= self.first_unpruned_slot.0 implies keeps_decision(#[trigger] pre.st(s), self.st(s)) by { let _ = g.st(s); }
             assert forall|s: Slot| s.0 > pre.first_unpruned_slot.0 && !decided(#[trigger] pre.st(s))
                 && (s.0 < self.first_unpruned_slot.0 || decided(self.st(s))) implies (event.finalized matches Some(f) && f.0 == s) || reported_any(event, s) by { let _ = g.st(s); }
@@ -617,6 +556,11 @@ ensures
         r.finalized is Some <==> (block.0.0 >= old(self).first_unpruned_slot.0 && old(self).st(block.0) == Some(FinalizationStatus::FinalPendingNotar)),
         r.finalized is Some ==> r.finalized == Some(block),
         (block.0.0 >= old(self).first_unpruned_slot.0 && old(self).st(block.0) is None) ==> final(self).st(block.0) == Some(FinalizationStatus::Notarized(block.1)),
+        // [C18.marks_stand_for_certificates C08.marks_stand_for_certificates] the only slot that can newly carry the status that stands
+        // for a stored certificate is this block's, and the highest finalized slot moves only to the slot reported finalized
+        forall|s: Slot| s != block.0 && mark_of(#[trigger] final(self).st(s)) ==> final(self).st(s) == old(self).st(s),
+        final(self).st(block.0) == Some(FinalizationStatus::FinalPendingNotar) ==> false,
+        hi_step(old(self), final(self), r),
         // [C08.highest_finalized_never_decreases]
         final(self).highest_finalized_slot.0 >= old(self).highest_finalized_slot.0,
         r.finalized is Some ==> final(self).highest_finalized_slot.0 >= block.0.0,
@@ -646,6 +590,10 @@ before `self.handle_finalized_block(block, &mut event);`
         let ghost g = *self;
 after `self.handle_finalized_block(block, &mut event);`
         proof {
+            assert forall|s: Slot| s != block.0 && mark_of(#[trigger] self.st(s)) implies self.st(s) == pre.st(s) by {
+                let _ = g.st(s);
+                assert(self.status@.contains_key(s));
+            }
             assert forall|s: Slot| s.0 >= self.first_unpruned_slot.0 implies keeps_decision(#[trigger] pre.st(s), self.st(s)) by { let _ = g.st(s); }
             assert forall|s: Slot| s.0 > pre.first_unpruned_slot.0 && !decided(#[trigger] pre.st(s))
                 && (s.0 < self.first_unpruned_slot.0 || decided(self.st(s))) implies (event.finalized matches Some(f) && f.0 == s) || reported_any(event, s) by { let _ = g.st(s); }
@@ -670,6 +618,10 @@ ensures
         r.finalized is Some <==> (slot.0 >= old(self).first_unpruned_slot.0 && old(self).st(slot) matches Some(FinalizationStatus::Notarized(_))),
         r.finalized matches Some(b) ==> b.0 == slot && old(self).st(slot) == Some(FinalizationStatus::Notarized(b.1)),
         (slot.0 >= old(self).first_unpruned_slot.0 && old(self).st(slot) is None) ==> final(self).st(slot) == Some(FinalizationStatus::FinalPendingNotar),
+        // [C18.marks_stand_for_certificates C08.marks_stand_for_certificates]
+        forall|s: Slot| s != slot && mark_of(#[trigger] final(self).st(s)) ==> final(self).st(s) == old(self).st(s),
+        final(self).st(slot) is Some && final(self).st(slot)->0 is Notarized ==> old(self).st(slot) == final(self).st(slot),
+        hi_step(old(self), final(self), r),
         // [C08.highest_finalized_never_decreases]
         final(self).highest_finalized_slot.0 >= old(self).highest_finalized_slot.0,
         r.finalized is Some ==> final(self).highest_finalized_slot.0 >= slot.0,
@@ -697,6 +649,10 @@ before `self.handle_finalized_block((slot, block_hash), &mut event);`
         let ghost g = *self;
 after `self.handle_finalized_block((slot, block_hash), &mut event);`
         proof {
+            assert forall|s: Slot| s != slot && mark_of(#[trigger] self.st(s)) implies self.st(s) == pre.st(s) by {
+                let _ = g.st(s);
+                assert(self.status@.contains_key(s));
+            }
             assert forall|s: Slot| s.0 >= self.first_unpruned_slot.0 implies keeps_decision(#[trigger] pre.st(s), self.st(s)) by { let _ = g.st(s); }
             assert forall|s: Slot| s.0 > pre.first_unpruned_slot.0 && !decided(#[trigger] pre.st(s))
                 && (s.0 < self.first_unpruned_slot.0 || decided(self.st(s))) implies (event.finalized matches Some(f) && f.0 == s) || reported_any(event, s) by { let _ = g.st(s); }
@@ -726,6 +682,8 @@ ensures
         block.0.0 < old(self).first_unpruned_slot.0 ==> final(self).same_as(old(self)) && event_is_default(r),
         // [C08.parent_link_recorded]
         block.0.0 >= final(self).first_unpruned_slot.0 ==> final(self).parents@.contains_key(block) && final(self).parents@[block] == parent,
+        // [C18.marks_stand_for_certificates C08.marks_stand_for_certificates]
+        forall|s: Slot| mark_of(#[trigger] final(self).st(s)) ==> final(self).st(s) == old(self).st(s),
         // [C08.finalized_exactly_when_certificates_justify]
         r.finalized is None,
         final(self).highest_finalized_slot == old(self).highest_finalized_slot,
@@ -755,6 +713,10 @@ before `self.prune();`
         }
 after `self.prune();`
         proof {
+            assert forall|s: Slot| mark_of(#[trigger] self.st(s)) implies self.st(s) == old(self).st(s) by {
+                let _ = g2.st(s); let _ = g0.st(s);
+                assert(self.status@.contains_key(s));
+            }
             assert forall|s: Slot| s.0 > old(self).first_unpruned_slot.0 && !decided(#[trigger] old(self).st(s))
                 && (s.0 < self.first_unpruned_slot.0 || decided(self.st(s))) implies reported_any(event, s) by {
                 if s.0 < self.first_unpruned_slot.0 { assert(decided(g2.st(s))); } else { assert(self.st(s) == g2.st(s)); }
